@@ -176,6 +176,33 @@ def run(ctx):
                   bad_msg=f"events without a mainline ancestor get depth {default}, mainline positions start at {offset}: they tie with events attached to the oldest "
                           f"mainline event and are then ordered by timestamp, whereas the specification orders them strictly first")
 
+    # ---- the walk to the closest mainline event is not cut short ---------------------------------------------------------------------------
+    ctx.rule("C07.mainline-walk", "get_mainline_depth gives the default depth only when the walk up the power-levels chain has ended (no event, or an event "
+                                  "without a power-levels auth event): never while a next power-levels event is still to be looked up (no bound on the walk)")
+    dexw = D.Dex(w.lookup, adt_discr=w.adt_discr, ctors=w.ctors, unroll=1, max_paths=400000, inline=lambda n_: "{closure" in n_)
+    try:
+        wps = [p for p in dexw.paths(fd, [D.sym(x) for x in ["event", "mainline_map", "fetch_event"]]) if p.kind == "ret"]
+        cut = []
+        n_def = 0
+        for p in wps:
+            if not (U.is_ok(p.ret) and D.is_const(U.payload(p.ret))):
+                continue
+            n_def += 1
+            pending = False
+            for a, t in p.conds:
+                sa = D.show_atom(a)
+                if "is_type_and_key(" in sa and t:
+                    pending = True                       # a power-levels auth event was found: it is the next event of the walk
+                elif re.search(r"HashMap::get\(mainline_map, ", sa):
+                    pending = False                      # ... and it has been looked up in the mainline
+            if pending:
+                cut.append([D.show_atom(a)[:70] for a, t in p.conds if t][-2:])
+        ctx.check(n_def >= 2 and not cut, "C07.mainline-walk", "C07.mainline-walk:default-only-at-the-end", w.where(fd),
+                  bad_msg=f"the default depth is returned while a power-levels event found in the auth events has not been looked up yet (last conditions: "
+                          f"{cut[:1]}): an event whose chain of off-mainline power-levels events is longer than the bound sorts as if it predated the mainline")
+    except D.Unrecognised as e:
+        ctx.unrecognised("C07.mainline-walk", "C07.mainline-walk:default-only-at-the-end", w.where(fd), str(e))
+
     # ---- iterative auth check -------------------------------------------------------------------------------------------
     ctx.rule("C07.auth", "iterative_auth_check adds the event to the resolved state iff auth_check returned Ok, under its own (type, state key)")
     f = w.fn(SR + "iterative_auth_check")
